@@ -29,6 +29,12 @@ def main():
             ctx.fingerprints[f'{path}:{qual}'] = fw.ast_fingerprint(fw.REPO / path, qual)
     except Exception as e:  # unreadable source: the tie itself is broken
         ctx.violate('proof', 'fingerprint', f'cannot read modelled source: {e!r}')
+    ref_file = fw.VERIF / 'tools' / 'fingerprints.json'
+    ref = json.loads(ref_file.read_text()).get(a.pid, {}) if ref_file.exists() else {}
+    changed = sorted(k for k, v in ctx.fingerprints.items() if k in ref and ref[k] != v)
+    if changed:   # never a violation by itself: the modelled code changed, so the correspondence samples more
+        ctx.boost = True
+        ctx.note('modelled source changed since the model was written: ' + ', '.join(changed) + ' - correspondence volume x4')
     ok = fw.build_props(ctx, meta['props'], getattr(mod, 'GENERATORS', ()))
     try:
         mod.correspondence(ctx, proofs_ok=ok)
